@@ -52,8 +52,15 @@ def seeded(ids, tier="quick", seeds=("1",)):
                 rc_all = max(rc_all, 1)
         finally:
             shutil.rmtree(scratch, ignore_errors=True)
-    with open(os.path.join(VERIF, "mutation_report.json"), "w") as f:
-        json.dump(report, f, indent=1)
+    path = os.path.join(VERIF, "mutation_report.json")
+    try:
+        old = json.load(open(path))
+    except Exception:
+        old = []
+    merged = {r["id"]: r for r in old}
+    merged.update({r["id"]: r for r in report})
+    with open(path, "w") as f:
+        json.dump([merged[k] for k in sorted(merged)], f, indent=1)
     return rc_all
 
 
